@@ -1360,6 +1360,7 @@ def _install():
         _MON['calc'] += 1
         return gapc(self, *a, **k)
 
+    _MON['orig'] = (chk, calc, gapc)
     RX.Reactor._check_dz = check_dz
     AM.Assembly.calculate = calculate
     CM.Core.calculate_gap_temperatures = gap_calculate
@@ -1369,6 +1370,24 @@ def _install():
     lg.propagate = False
     _MON['handler'] = h
     _MON['installed'] = True
+
+
+def _uninstall():
+    """undo _install() in this process (parts that build several Reactors per case by themselves)"""
+    if not _MON['installed']:
+        return
+    from dassh import reactor as RX, assembly as AM, core as CM
+    RX.Reactor._check_dz, AM.Assembly.calculate, CM.Core.calculate_gap_temperatures = _MON['orig']
+    lg = logging.getLogger('dassh')
+    if _MON['handler'] is not None:
+        lg.removeHandler(_MON['handler'])
+    _MON['installed'] = False
+
+
+def run_asmtables(c):
+    _uninstall()
+    from . import reports as _rep
+    return _rep.run_asmtables_C18(c)
 
 
 def _temps(r):
@@ -1756,6 +1775,10 @@ def main(run):
         cs = cs + cs2
     run.explore('valid', valid_cases(run.tier), run_valid, budget_s=budget)
     run.explore('regions', region_cases(run.tier), run_regions, budget_s=budget, chunksize=8)
+    # accepted AssemblyTables requests (every table type, heights on / between planes / at the ends, assemblies
+    # after a vacancy, three unit systems) are written without an unhandled exception (vf/props/reports.py)
+    from . import reports as _rep
+    run.explore('report-asmtables', _rep.cases_asmtables(run.tier), run_asmtables, budget_s=300)
     # vacuity: every outcome class and every named class must have occurred
     seen = {}
     for r in results:
@@ -1779,6 +1802,9 @@ def main(run):
 
 
 def replay(body):
+    if str((body.get('scenario') or {}).get('probe', '')).startswith('report-'):
+        from . import reports
+        return reports.replay(body)
     c = body['scenario']
     if 'valid' in c or 'regions' in c:
         c = {k: v for k, v in c.items() if k != 'rclass'}
